@@ -360,13 +360,13 @@ I_Slot == /\ c.m = "I" /\ c.i <= Len(c.e.parts) /\ c.e.parts[c.i].t = "slot"
           /\ Go(CE(c.e.parts[c.i].e), Push([f |-> "interp", e |-> c.e, i |-> c.i, acc |-> c.acc]))
 I_BadSlot ==
     /\ c.m = "I" /\ c.i <= Len(c.e.parts) /\ c.e.parts[c.i].t = "badslot"
-    /\ Fail("InterpolateStringParseFailed", SlotLoc(c.e.loc, c.e.parts[c.i].off, c.i),
+    /\ Fail("InterpolateStringParseFailed", SlotLoc(c.e.loc, c.e.parts[c.i], c.i),
             M_InterpolateStringParseFailed)
 I_Done == /\ c.m = "I" /\ c.i > Len(c.e.parts) /\ Go(CV(Slot(VStr(c.acc))), K)
 
 V_Interp ==
     /\ c.m = "V" /\ HasTop("interp")
-    /\ LET loc == SlotLoc(Top.e.loc, Top.e.parts[Top.i].off, Top.i) IN
+    /\ LET loc == SlotLoc(Top.e.loc, Top.e.parts[Top.i], Top.i) IN
        IF c.s.v.k # "string"
        THEN FailIn(Pop, "InterpolatedValueNotString", loc, M_InterpolatedValueNotString(c.s.v))
        ELSE IF ~ValidUtf8(c.s.v.s)
